@@ -9,7 +9,7 @@ From CV Require Gen.PassGroups Gen.ClangDelta Gen.PyConv.
 
 Definition row_ok_now :=
   row_ok Gen.PassGroups.pass_table Gen.PyConv.py_args Gen.ClangDelta.registrations
-         Gen.PyConv.clex_exact Gen.PyConv.clex_prefixed.
+         Gen.PyConv.clex_exact Gen.PyConv.clex_prefixed Gen.PyConv.lines_literals.
 
 (* every entry of every shipped group: known pass; argument accepted by the Python pass; clang /
    clangbinarysearch arguments registered in clang_delta (with MultipleRewrites for the binary
